@@ -233,6 +233,10 @@ func Gen(r *vk.Run, n int) error {
 	if want("stream") {
 		genStream(r, budget/7)
 	}
+	// --- open-time parsing of tbtree / ahtree (modelled: Store/OpenTime.v)
+	if want("opentime") {
+		genOpenTime(r, budget/10)
+	}
 	// --- ReplicateTx on real stores
 	if want("repl") {
 		return genRepl(r, budget/3)
